@@ -1017,6 +1017,9 @@ func vTypeCheck(t *vtype, v *jv, feats map[string]bool) (tcheck, *jv) {
 // typeCheckF is what bindParams calls: typeCheck for the scalar parameter types, vTypeCheck for the
 // struct-typed ones.
 func typeCheckF(t ptype, v *jv, feats map[string]bool) (tcheck, *jv) {
+	if isS(t) {
+		return sTypeCheck(sOf(t), v, feats)
+	}
 	if isV(t) {
 		return vTypeCheck(vOf(t), v, feats)
 	}
@@ -1078,6 +1081,8 @@ func vProbes(c interface{ Probe(string) }, e *entry, a *alt) {
 		c.Probe(f)
 	}
 	switch {
+	case !e.feat["v_param"]:
+		sProbes(c, e, a) // only scalar-typed parameters (scalar_classify.go)
 	case a.call != nil && strings.Contains(e.cls, ":named"):
 		c.Probe("v_handler_called_named")
 	case a.call != nil && strings.Contains(e.cls, ":pos"):
